@@ -6,10 +6,100 @@ Property theorems only (helper lemmas: OnosVerif/Proofs/Config*.lean).  The twin
 code through the protocol harness; the reference semantics (`Spec.apply`, `Spec.run`, `under`) and
 the decidable history predicates (`Clean`, `indexed`) are in OnosVerif/Config/Spec.lean.
 -/
-import OnosVerif.Config.Spec
+import OnosVerif.Proofs.ConfigOrder
 
 namespace OnosVerif.Props.C03
 open OnosVerif.Config
+open OnosVerif.Path (Str)
+
+/-! ## The part that holds -/
+
+/-- **Main theorem.**  For every *clean* history (`Clean`, a decidable predicate on the list of
+    change maps: conditions (a)–(d) of the Go `CleanHistory` plus (e), no used path beneath a
+    written leaf), every strictly increasing index sequence whose change values carry their
+    transaction index (`indexed`), every iteration order of the updated change (`ordU`, any
+    permutation) and every order of each change map (the change lists are arbitrary lists with
+    pairwise different paths): what a Get of the whole target returns after the commits is what
+    the gNMI reference semantics yields for the same requests.  Unbounded histories, by induction
+    with the invariant `Inv` on the side map (OnosVerif/Proofs/ConfigInv.lean). -/
+theorem C03_refines_gnmi_partial (steps : List Step) (hclean : Clean (steps.map (·.change)) = true)
+    (hidx : indexed 0 steps = true) (hord : ∀ t ∈ steps, IsPerm t.ordU) :
+    live (runTwin [] steps) = Spec.view (Spec.run [] (steps.map (·.change))) := by
+  obtain ⟨⟨D, U, W, lo, hinv⟩, hk, hread⟩ := run_refines steps [] [] [] 0 [] [] inv_empty
+    List.Pairwise.nil (fun p => by simp [liveAt, get_nil, Spec.get_nil]) hclean hidx hord
+  exact live_eq_view _ _ hinv.nodup hk hread
+
+/-- One commit from any state satisfying `Inv`: a clean request (relative to the paths deleted,
+    used and written so far) is read back, at every path, as the gNMI request applied to what was
+    read before. -/
+theorem C03_commit_refines_partial (D U W : List Str) (lo idx : Nat) (side ch : VMap) (ordU : VMap → VMap)
+    (hinv : Config.Inv D U W lo side) (hcl : cleanStep D U W ch = true) (hlo : lo < idx)
+    (hst : ∀ c ∈ ch, c.index = idx) (hord : IsPerm ordU) (p : Str) :
+    liveAt (commitValues idx side ch ordU) p = specAt (liveAt side) ch p :=
+  commit_liveAt ordU (stepOK_of_inv D U W lo idx side ch hinv (cleanStep_spec D U W ch hcl) hlo hst) hord p
+
+/-- … and the commit re-establishes `Inv` for the extended history. -/
+theorem C03_commit_preserves_inv (D U W : List Str) (lo idx : Nat) (side ch : VMap) (ordU : VMap → VMap)
+    (hinv : Config.Inv D U W lo side) (hcl : cleanStep D U W ch = true) (hlo : lo < idx)
+    (hst : ∀ c ∈ ch, c.index = idx) (hord : IsPerm ordU) :
+    Config.Inv (D ++ Spec.deletes ch) (U ++ paths ch) (W ++ written ch) idx (commitValues idx side ch ordU) :=
+  inv_commit D U W lo idx side ch ordU hinv (cleanStep_spec D U W ch hcl) hlo hst hord
+
+/-- The result of a clean commit does not depend on incidental ordering: any two iteration orders
+    of the updated change and any permutation of the change map give the same Get result. -/
+theorem C03_order_independent_partial (D U W : List Str) (lo idx : Nat) (side ch ch' : VMap)
+    (o1 o2 : VMap → VMap) (hinv : Config.Inv D U W lo side) (hcl : cleanStep D U W ch = true) (hlo : lo < idx)
+    (hst : ∀ c ∈ ch, c.index = idx) (hp : ch'.Perm ch) (h1 : IsPerm o1) (h2 : IsPerm o2) :
+    live (commitValues idx side ch o1) = live (commitValues idx side ch' o2) :=
+  commit_order_independent D U W lo idx side ch ch' o1 o2 hinv (cleanStep_spec D U W ch hcl) hlo hst hp h1 h2
+
+/-- An update sets that leaf: after a clean commit the updated path reads exactly the new value.
+    (Proved from an `Inv` state for a clean request; the unconditional version — only "not below a
+    delete of the same request or a stored tombstone" — is not proved.) -/
+theorem C03_update_sets_leaf_partial (D U W : List Str) (lo idx : Nat) (side ch : VMap) (ordU : VMap → VMap)
+    (hinv : Config.Inv D U W lo side) (hcl : cleanStep D U W ch = true) (hlo : lo < idx)
+    (hst : ∀ c ∈ ch, c.index = idx) (hord : IsPerm ordU) (c : PV) (hc : c ∈ ch) (hcd : c.deleted = false) :
+    liveAt (commitValues idx side ch ordU) c.path = some c.value := by
+  rw [C03_commit_refines_partial D U W lo idx side ch ordU hinv hcl hlo hst hord]
+  unfold specAt
+  rw [get_of_mem ch c (cleanStep_spec D U W ch hcl).nodup hc]
+  simp [hcd]
+
+/-- A delete removes the addressed node and everything beneath it at element boundaries: after a
+    clean commit no path under a deleted path of the request is readable.  (From an `Inv` state
+    for a clean request; false in general, see `C03_leaf_with_descendants_full_fails`.) -/
+theorem C03_delete_removes_subtree_partial (D U W : List Str) (lo idx : Nat) (side ch : VMap)
+    (ordU : VMap → VMap) (hinv : Config.Inv D U W lo side) (hcl : cleanStep D U W ch = true) (hlo : lo < idx)
+    (hst : ∀ c ∈ ch, c.index = idx) (hord : IsPerm ordU) (c : PV) (hc : c ∈ ch) (hcd : c.deleted = true)
+    (q : Str) (hq : under q c.path = true) (hnew : VMap.get ch q = none ∨ q = c.path) :
+    liveAt (commitValues idx side ch ordU) q = none := by
+  rw [C03_commit_refines_partial D U W lo idx side ch ordU hinv hcl hlo hst hord]
+  unfold specAt
+  rcases hnew with hnew | hnew
+  · rw [hnew]
+    have : (Spec.deletes ch).any (fun d => under q d) = true :=
+      List.any_eq_true.2 ⟨c.path, (mem_deletes ch _).2 ⟨c, hc, hcd, rfl⟩, hq⟩
+    simp [this]
+  · rw [hnew, get_of_mem ch c (cleanStep_spec D U W ch hcl).nodup hc]
+    simp [hcd]
+
+/-- Nothing else changes: a path that is not in the request and not under a deleted path of the
+    request reads after a clean commit what it read before — in particular siblings whose names
+    merely share a textual prefix with a requested path. -/
+theorem C03_untouched_unrelated_partial (D U W : List Str) (lo idx : Nat) (side ch : VMap)
+    (ordU : VMap → VMap) (hinv : Config.Inv D U W lo side) (hcl : cleanStep D U W ch = true) (hlo : lo < idx)
+    (hst : ∀ c ∈ ch, c.index = idx) (hord : IsPerm ordU) (q : Str) (hq : VMap.get ch q = none)
+    (hu : ∀ c ∈ ch, c.deleted = true → under q c.path = false) :
+    liveAt (commitValues idx side ch ordU) q = liveAt side q := by
+  rw [C03_commit_refines_partial D U W lo idx side ch ordU hinv hcl hlo hst hord]
+  unfold specAt
+  rw [hq]
+  have : (Spec.deletes ch).any (fun d => under q d) = false := by
+    rw [List.any_eq_false]
+    intro d hd
+    obtain ⟨c, hc, hdel, hp⟩ := (mem_deletes ch d).1 hd
+    rw [← hp, hu c hc hdel]; decide
+  simp [this]
 
 /-! ## Negation witnesses: the full statement is false of the twin (and of the code) -/
 
